@@ -386,9 +386,9 @@ def sigapi_cases(draw):
 def targets(tier):
     return [
         Target("sign-secp", check_sign, strategy=lambda tier: sign_cases(), budget={"quick": 700, "thorough": 12000},
-               required=["nt:digest>=n", "nt:digest==0", "nt:key-boundary-or-leading-zeros", "nt:draw-zero|rng-not-consulted", "nt:s-retry|rng-not-consulted",
-                         "nt:s-negated|rng-not-consulted", "nt:r-short|rng-not-consulted", "nt:s-short|rng-not-consulted", "nt:r-pad|rng-not-consulted",
-                         "nt:s-short-pad|rng-not-consulted", "nt:pair-key", "nt:pair-message"]),
+               required=["nt:digest>=n", "nt:digest==0", "nt:key-boundary-or-leading-zeros", "nt:draw-zero || rng-not-consulted", "nt:s-retry || rng-not-consulted",
+                         "nt:s-negated || rng-not-consulted", "nt:r-short || rng-not-consulted", "nt:s-short || rng-not-consulted", "nt:r-pad || rng-not-consulted",
+                         "nt:s-short-pad || rng-not-consulted", "nt:pair-key", "nt:pair-message"]),
         Target("sig-api", check_sigapi, strategy=lambda tier: sigapi_cases(), budget={"quick": 500, "thorough": 10000},
                required=["nt:preimage", "nt:flag-anyonecanpay", "nt:s-short-pad", "nt:r-short", "nt:solved-key", "nt:msg-len-32/preimage", "nt:msg-len-32/plain", "nt:msg-len-64/preimage", "nt:msg-len-64/plain"]),
         Target("der-codec", check_der, enumerate_=enum_der, required=["nt:s-short-pad", "nt:r-short-pad", "nt:r-pad"]),
